@@ -43,7 +43,7 @@ func (v *Verifier) calleeKey(com *ssa.CallCommon) string {
 		case *ssa.FreeVar:
 			return a.Name()
 		case *ssa.FieldAddr:
-			if st, ok := a.X.Type().Underlying().(*types.Pointer).Elem().Underlying().(*types.Struct); ok {
+			if st, ok := under(a.X.Type()).(*types.Pointer).Elem().Underlying().(*types.Struct); ok {
 				return "." + st.Field(a.Field).Name()
 			}
 		case *ssa.Global:
@@ -228,12 +228,12 @@ func (fr *Frame) doCall(in ssa.Instruction, com *ssa.CallCommon, st *State, isGo
 	ca.ifacePtr, ca.ifaceElem = map[int]Term{}, map[int]types.Type{}
 	for ai, a := range argVals {
 		r := fr.val(a, st)
-		if _, isIface := a.Type().Underlying().(*types.Interface); isIface && !(com.IsInvoke() && ai == 0) {
+		if _, isIface := under(a.Type()).(*types.Interface); isIface && !(com.IsInvoke() && ai == 0) {
 			if mi, ok := a.(*ssa.MakeInterface); ok {
-				if pt, ok := mi.X.Type().Underlying().(*types.Pointer); ok {
+				if pt, ok := under(mi.X.Type()).(*types.Pointer); ok {
 					ca.ifacePtr[ai] = fr.term(mi.X, st)
 					ca.ifaceElem[ai] = pt.Elem()
-				} else if _, ok := mi.X.Type().Underlying().(*types.Slice); ok {
+				} else if _, ok := under(mi.X.Type()).(*types.Slice); ok {
 					// a slice inside an interface (sort.Slice(x, less)): its elements may change
 					if ca.ifaceSlice == nil {
 						ca.ifaceSlice = map[int]TV{}
@@ -527,7 +527,7 @@ func (fr *Frame) contractCall(con *Contract, key string, sig *types.Signature, c
 				fr.havocObject(tv, st)
 			}
 			for i, t := range ca.terms {
-				if sl, isSlice := ca.types[i].Underlying().(*types.Slice); isSlice && allowed(i) {
+				if sl, isSlice := under(ca.types[i]).(*types.Slice); isSlice && allowed(i) {
 					// the elements of a slice argument may change (its backing array gets arbitrary contents)
 					es := c.sortOf(sl.Elem())
 					k := c.regElem(es)
@@ -535,7 +535,7 @@ func (fr *Frame) contractCall(con *Contract, key string, sig *types.Signature, c
 					c.heapWritten(st)
 					continue
 				}
-				pt, ok := ca.types[i].Underlying().(*types.Pointer)
+				pt, ok := under(ca.types[i]).(*types.Pointer)
 				if !ok || !allowed(i) {
 					continue
 				}
@@ -570,7 +570,7 @@ func (fr *Frame) contractCall(con *Contract, key string, sig *types.Signature, c
 		for _, f := range con.Fresh {
 			_ = f
 			for i := 0; i < tup.Len(); i++ {
-				if _, ok := tup.At(i).Type().Underlying().(*types.Pointer); ok {
+				if _, ok := under(tup.At(i).Type()).(*types.Pointer); ok {
 					c.assumeG(implies(not(eq(res.T[i], Term{"nil_ref", SRef})), mk(SBool, ">", mk(SInt, "alloc_id", res.T[i]), Term{fmt.Sprintf("%d", 1000000+len(c.allocs)), SInt})))
 					c.sc.declFun("alloc_id", []Sort{SRef}, SInt)
 				}
@@ -654,14 +654,14 @@ func (c *FuncCtx) pureTerm(key string, resIdx int, args []Term, argTys []types.T
 			if t == nil {
 				continue
 			}
-			switch u := t.Underlying().(type) {
+			switch u := under(t).(type) {
 			case *types.Slice:
 				addHeap(c.regElem(c.sortOf(u.Elem())))
 				if hasRefs(u.Elem()) {
 					deep = true
 				}
 			case *types.Pointer:
-				if arr, ok := u.Elem().Underlying().(*types.Array); ok {
+				if arr, ok := under(u.Elem()).(*types.Array); ok {
 					addHeap(c.regElem(c.sortOf(arr.Elem())))
 				} else {
 					addHeap(c.regHeap(c.sortOf(u.Elem())))
@@ -703,7 +703,7 @@ func (c *FuncCtx) pureTerm(key string, resIdx int, args []Term, argTys []types.T
 
 // hasRefs: does a value of type t contain references into the heap?
 func hasRefs(t types.Type) bool {
-	switch u := t.Underlying().(type) {
+	switch u := under(t).(type) {
 	case *types.Basic:
 		return u.Kind() == types.UnsafePointer
 	case *types.Array:
@@ -1076,7 +1076,7 @@ func (fr *Frame) builtin(in ssa.Instruction, b *ssa.Builtin, com *ssa.CallCommon
 	case "len", "cap":
 		a := com.Args[0]
 		v := fr.term(a, st)
-		switch t := a.Type().Underlying().(type) {
+		switch t := under(a.Type()).(type) {
 		case *types.Slice:
 			if b.Name() == "len" {
 				return one(c.sc.define("len", c.slLen(v)))
@@ -1087,7 +1087,7 @@ func (fr *Frame) builtin(in ssa.Instruction, b *ssa.Builtin, com *ssa.CallCommon
 		case *types.Array:
 			return one(c.sc.idxLit(t.Len()))
 		case *types.Pointer:
-			if arr, ok := t.Elem().Underlying().(*types.Array); ok {
+			if arr, ok := under(t.Elem()).(*types.Array); ok {
 				return one(c.sc.idxLit(arr.Len()))
 			}
 		case *types.Map:
@@ -1106,7 +1106,7 @@ func (fr *Frame) builtin(in ssa.Instruction, b *ssa.Builtin, com *ssa.CallCommon
 		// addressable as a sink: `call append #n requires E` with arg(0) the slice appended to and
 		// arg(1) the slice of appended elements (the variadic tail)
 		if fr.con != nil && len(com.Args) == 2 {
-			if _, isSl := com.Args[1].Type().Underlying().(*types.Slice); isSl {
+			if _, isSl := under(com.Args[1].Type()).(*types.Slice); isSl {
 				fr.pseudoSinkKind("append", in, []TV{{T: fr.term(com.Args[0], st), Ty: com.Args[0].Type()}, {T: fr.term(com.Args[1], st), Ty: com.Args[1].Type()}}, st)
 			}
 		}
@@ -1115,7 +1115,7 @@ func (fr *Frame) builtin(in ssa.Instruction, b *ssa.Builtin, com *ssa.CallCommon
 		return fr.builtinCopy(in, com, st)
 	case "delete":
 		m := fr.term(com.Args[0], st)
-		mt := com.Args[0].Type().Underlying().(*types.Map)
+		mt := under(com.Args[0].Type()).(*types.Map)
 		ks, vs := c.sortOf(mt.Key()), c.sortOf(mt.Elem())
 		dk, _ := c.regMap(ks, vs)
 		k := fr.term(com.Args[1], st)
@@ -1189,7 +1189,7 @@ func (fr *Frame) builtinAppend(in ssa.Instruction, com *ssa.CallCommon, st *Stat
 	c := fr.c
 	s := fr.term(com.Args[0], st)
 	t := fr.term(com.Args[1], st)
-	st0 := com.Args[0].Type().Underlying().(*types.Slice)
+	st0 := under(com.Args[0].Type()).(*types.Slice)
 	et := st0.Elem()
 	es := c.sortOf(et)
 	k := c.regElem(es)
@@ -1246,7 +1246,7 @@ func (fr *Frame) builtinCopy(in ssa.Instruction, com *ssa.CallCommon, st *State)
 	c := fr.c
 	d := fr.term(com.Args[0], st)
 	s := fr.term(com.Args[1], st)
-	et := com.Args[0].Type().Underlying().(*types.Slice).Elem()
+	et := under(com.Args[0].Type()).(*types.Slice).Elem()
 	es := c.sortOf(et)
 	k := c.regElem(es)
 	inner := arraySort(c.sc.idxSort(), es)
@@ -1362,7 +1362,7 @@ func (fr *Frame) nullableField(v ssa.Value) bool {
 	if !ok {
 		return false
 	}
-	st, ok := fa.X.Type().Underlying().(*types.Pointer).Elem().Underlying().(*types.Struct)
+	st, ok := under(fa.X.Type()).(*types.Pointer).Elem().Underlying().(*types.Struct)
 	return ok && fr.con.Nullable[st.Field(fa.Field).Name()]
 }
 
@@ -1378,7 +1378,7 @@ func isPlainIdent(s string) bool {
 // havocObject gives the object a pointer / map / slice value denotes arbitrary new contents.
 func (fr *Frame) havocObject(tv TV, st *State) {
 	c := fr.c
-	switch u := tv.Ty.Underlying().(type) {
+	switch u := under(tv.Ty).(type) {
 	case *types.Pointer:
 		l := c.ptrLVal(tv.T, u.Elem())
 		fr.write(l, st, c.freshOfType("out", u.Elem()))
